@@ -134,11 +134,31 @@ func TestC09(t *testing.T) {
 	props.Finish(t, ev)
 	rapid.Check(t, func(rt *rapid.T) {
 		fam := rapid.SampledFrom(families).Draw(rt, "family")
+		target := rapid.SampledFrom([]string{"", "change", "change", "change", "joined1", "joined1", "joined1", "joined2", "save", "retrieve", "echo"}).Draw(rt, "target")
+		if target == "echo" {
+			// the exit status query behind a change command exists on Linux only
+			fam = "linux"
+		}
 		sc := genBase(rt, fam)
 		sc.Front = rapid.SampledFrom([]string{"drc", "do-approve"}).Draw(rt, "front")
 		sc.Verb = rapid.SampledFrom([]string{"approve", "approve", "compare"}).Draw(rt, "verb")
+		switch target {
+		case "echo", "change", "joined1", "joined2", "save":
+			sc.Verb = "approve" // a compare run has no such step
+		}
 		f := drawFault(rt, fam, 60, rapid.IntRange(0, 14).Draw(rt, "stallOK") == 0)
-		target := rapid.SampledFrom([]string{"", "change", "change", "joined1", "joined1", "joined1", "joined2", "save", "retrieve"}).Draw(rt, "target")
+		// Kinds that matter most at a position are drawn more often there:
+		// an error text on the first half of a two-command packet, a
+		// tolerated warning followed by an error on an ASA change command.
+		if target == "joined1" && (fam == "ios" || fam == "asa") && rapid.Bool().Draw(rt, "joinedError") {
+			f.Kind = "error"
+		}
+		if target == "change" && fam == "asa" && rapid.IntRange(0, 2).Draw(rt, "asaWarnError") == 0 {
+			f.Kind = "warnerror"
+		}
+		if target == "echo" && rapid.Bool().Draw(rt, "echoGarbage") {
+			f.Kind = rapid.SampledFrom([]string{"garbage", "error"}).Draw(rt, "echoKind")
+		}
 		if strings.HasPrefix(target, "joined") && (fam == "asa" || fam == "ios") {
 			// Prefer a pair whose script has a two-command packet.
 			for i := 0; i < 12 && len(joinedSecond(sc)) == 0; i++ {
